@@ -58,6 +58,15 @@ def star_scripts(r):
         md3 = {"s.k": [c1, c2]}
         out.append(({"sql": sql3, "dialect": "ansi", "metadata": md3, "config": {}, "origin": "star-through-insert"},
                     sorted([f"s.k.{c1}>s.c.{c1}", f"s.k.{c2}>s.c.{c2}"])))
+        # the catalog still holds an old definition of a table the script re-creates: the script's definition wins
+        md4 = {"s.a": [c1, c2], "s.b": [c1, c2, c3], "s.d": [c3, "k"]}
+        sql4 = (f"create table s.b as select {c1}, {c2} from s.a;\n"
+                f"insert into s.c select {c2}, {c3} from s.b p join s.d q on 1 = 1")
+        out.append(({"sql": sql4, "dialect": "ansi", "metadata": md4, "config": {}, "origin": "stale-catalog"},
+                    sorted([f"s.a.{c1}>s.b.{c1}", f"s.a.{c2}>s.c.{c2}", f"s.d.{c3}>s.c.{c3}"])))
+        sql5 = (f"create table s.b as select {c1}, {c2} from s.a;\ninsert into s.c select * from s.b")
+        out.append(({"sql": sql5, "dialect": "ansi", "metadata": md4, "config": {}, "origin": "stale-catalog-star"},
+                    sorted([f"s.a.{c1}>s.c.{c1}", f"s.a.{c2}>s.c.{c2}"])))
     return out
 
 
@@ -178,7 +187,7 @@ def main() -> int:
                 "correspondence T4 between Tree/Script.v + Holder/Build.v (theorems c04_*) and sqllineage/runner.py, holders.py, metadata_provider.py",
                 "relational composition and the created-earlier scenarios were evaluated on every script of this run; no failing input")
     return ck.finish(rule="chains of 2-4 generated statements in which later statements read earlier targets (17 select bodies x wrappers, "
-                          "with/without metadata), mixed scripts, and 120 scenarios reading re-created tables with SELECT * / unqualified columns "
+                          "with/without metadata), mixed scripts, and 200 scenarios reading re-created tables (also with a stale catalog definition) with SELECT * / unqualified columns "
                           "under a provider; non-trivial = distinct script with >=1 end-to-end pair")
 
 
